@@ -85,6 +85,22 @@ def deep_families(ns):
     for name, f in fams.items():
         for n in ns:
             yield name, n, f(n)
+    # the same shapes with 2-, 3- and 4-byte characters in names and strings, around the nesting limit (whatever the parser does
+    # with the TEXT near the place where it gives up - slicing it for a message, say - meets every byte alignment)
+    uni = {
+        "u_list_str": lambda n, c, pad: "[" + ("\"%s\",[" % (c + pad)) * n + "1" + "]" * (n + 1),
+        "u_sum_names": lambda n, c, pad: (" + ".join([c + pad] * (n + 1))),
+        "u_call": lambda n, c, pad: ("%s(" % (c + pad)) * n + "1" + ")" * n,
+        "u_neg": lambda n, c, pad: ("- " + pad) * 0 + "- " * n + c + pad,
+        "u_map": lambda n, c, pad: ("{'%s':" % (c + pad)) * n + "1" + "}" * n,
+        "u_paren": lambda n, c, pad: "(" * n + c + pad + ")" * n + " + '" + c * 9 + "'",
+        "u_ternary": lambda n, c, pad: ("%s ? %s : " % (c, pad or "b")) * n + c,
+    }
+    for name, f in uni.items():
+        for n in (250, 255, 256, 257, 258, 300):
+            for c in ("\u00e9", "\u540d", "\U0001f600"):
+                for pad in ("", "a", "ab", "abc"):
+                    yield name, n, f(n, c, pad)
 
 class P:
     prop = "C01"
@@ -93,7 +109,7 @@ class P:
             "corruptions of valid programs, and 21 deep/long families (nesting, prefix runs, right-assoc chains, ternary "
             "chains, name runs, left-deep sums, calls) at n in {10,100,1000,10000,100000}, 17 height amplifiers (a tall chain nested "
             "through every child position of every node kind: levels x chain in {2x40, 3x100, 3x200, 30x60, 40x120}), each deep case in its own "
-            "process on a 2 MiB thread; EXEC of programs whose VALUES grow one level per statement (ten shapes x n up to 20000, and doubling widths). Non-trivial = distinct input of more than one character.")
+            "process on a 2 MiB thread; seven of these shapes with 2-, 3- and 4-byte characters at every byte alignment around the nesting limit; EXEC of programs whose VALUES grow one level per statement (ten shapes x n up to 20000, and doubling widths). Non-trivial = distinct input of more than one character.")
     assumptions = ["stack use is measured on a 2 MiB thread (Rust's default for spawned threads) in a debug build"]
     trusted_extra = []
 
